@@ -338,7 +338,7 @@ func bbsShape(bid ptttype.Bid, ss []*bbs.BoardSummary) string {
 }
 
 func doList(f string, a callArgs, user *ptttype.UserecRaw) string {
-	bids := []ptttype.Bid{bidPlain, a.bid, 0}
+	bids := []ptttype.Bid{a.bid, bidPlain, 0}
 	if *layer == "bbs" {
 		var ss []*bbs.BoardSummary
 		var err error
@@ -423,8 +423,14 @@ func doList(f string, a callArgs, user *ptttype.UserecRaw) string {
 	if err != nil {
 		return errClass(err)
 	}
+	lastRaw, lastNext = ss, next // the list exactly as returned (hold ops keep it)
 	return rawShape(a.bid, ss, next)
 }
+
+var (
+	lastRaw  []*ptttype.BoardSummaryRaw
+	lastNext *ptttype.BoardSummaryRaw
+)
 
 // ---- executing one op line -------------------------------------------------------------------------
 
@@ -475,6 +481,7 @@ func exec(line string) (out, label string, nontrivial bool, fails []fail) {
 			setBoard(b, 0, 0)
 		}
 		boardsSet = map[ptttype.Bid]bool{}
+		held = map[uint32]*heldList{}
 		resetAccounts()
 		return "ok", "reset", false, nil
 	case "setb":
@@ -505,6 +512,8 @@ func exec(line string) (out, label string, nontrivial bool, fails []fail) {
 		return
 	case "users", "sread", "slist", "resetbm", "mread", "mlist":
 		return execAccounts(ws)
+	case "hold", "recheck", "stress":
+		return execHeld(ws)
 	case "xread", "xreadb":
 		if len(ws) != 10 || !isIn(ws[1], readEntries) {
 			return bad()
